@@ -73,6 +73,9 @@ def run_case(ds, kind, rnd, uniq, evs_spec, exhaustive, limits):
         q, r = divmod(td, MS)
         return q if r == timedelta(0) and abs(q) < 2**30 else -99999
 
+    only = exhaustive if isinstance(exhaustive, dict) else None       # replay: exactly the recorded window and limit
+    if only:
+        exhaustive = True
     scale = rnd.choice([1, 10, 1000]) if not exhaustive else 1
     if not exhaustive:
         evs_spec = contents_pool(rnd, scale)
@@ -95,13 +98,22 @@ def run_case(ds, kind, rnd, uniq, evs_spec, exhaustive, limits):
                 b.replace(ids[i], evl[i])
     stored = b.get(-1)
     tr = [{"op": "load", "evs": [{"id": e.id, "ts": tick(e.timestamp), "dur": durt(e.duration), "d": "d%d" % e.data["i"]} for e in stored]}]
-    for hs, ws_t, he, we_t in windows_for(rnd, scale, exhaustive, evs_spec):
+    wins = [(only["w"]["hs"], only["w"]["s"], only["w"]["he"], only["w"]["e"])] if only else windows_for(rnd, scale, exhaustive, evs_spec)
+    if only:
+        limits = [only["lim"]]
+    for hs, ws_t, he, we_t in wins:
         jit1, jit2 = rnd.randrange(0, 1000), rnd.randrange(0, 1000)
-        ws = (base + ws_t * MS + jit1 * US).astimezone(cz.tz()) if hs else None
-        we = (base + we_t * MS + jit2 * US).astimezone(cz.tz()) if he else None
+        if only and only["w"].get("jit"):
+            jit1, jit2 = only["w"]["jit"]
+            we_t = only["w"].get("e_raw", we_t)
+        o1, o2 = rnd.randrange(-840, 841), rnd.randrange(-840, 841)
+        if only and only["w"].get("tzo"):
+            o1, o2 = only["w"]["tzo"]
+        ws = (base + ws_t * MS + jit1 * US).astimezone(timezone(timedelta(minutes=o1))) if hs else None
+        we = (base + we_t * MS + jit2 * US).astimezone(timezone(timedelta(minutes=o2))) if he else None
         if hs and he and ws > we:
             we = ws
-        w = {"hs": hs, "s": ws_t if hs else 0, "he": he, "e": ((we - base) // MS) if he else 0}
+        w = {"hs": hs, "s": ws_t if hs else 0, "he": he, "e": ((we - base) // MS) if he else 0, "jit": [jit1, jit2], "e_raw": we_t, "tzo": [o1, o2]}
         lims = limits if exhaustive else [rnd.choice(limits)]
         for lim in lims:
             try:
